@@ -106,6 +106,31 @@ def run(ctx):
              nontrivial=lambda c, t: any(x not in ("-1", "0") for x in t[:-1]), bucket=lambda c: "vec-seq len %d" % ((len(c) - 1) // 2), env=wd)
     diff_tie(ctx, "vec-big", exe, ["vec"], "vec", big, oracle=vec_oracle, describe=describe, bucket=lambda c: "vec-big", env=wd,
              alt_runners=alt, timeout=300)
+    # --- an element constructor throws inside a growth call, at every call index
+    crng = ctx.rng
+    ccases = []
+    for pre in (0, 1, 2, 3, 5, 8, 9, 33):
+        for n in (1, 2, 3, 7, 30, 100, 300):
+            for kind in (0, 1, 2, 3):
+                ks = sorted(set([1, 2, 3, n] + [crng.randint(1, n) for _ in range(ctx.scale(1, 6))]))
+                for k in ks:
+                    if k <= n:
+                        ccases.append([pre, n, kind, k])
+    KN = ["grow_by(n, value)", "grow_by(first, last)", "grow_to_at_least(n, value)", "n x push_back"]
+
+    def ct_desc(c):
+        return "concurrent_vector with %d elements, %s with n = %d, the copy constructor throws at its call #%d" % (c[0], KN[c[2]], c[1], c[3])
+
+    def ct_oracle(c, toks):
+        if toks == ["OK"]:
+            return None
+        if toks and toks[0] == "CRASH":
+            return ("vec-ctor-throw-crash", "%s: the process dies with signal %s (the clean-up touches memory of segments that were never allocated)" % (ct_desc(c), toks[1] if len(toks) > 1 else "?"))
+        return ("vec-ctor-throw-" + (toks[1] if len(toks) > 1 else "bad"), "%s: %s" % (ct_desc(c), " ".join(toks)))
+    ctx.rules.append("vec-ctorthrow (oracle only): 0-33 elements, then grow_by(n, value) / grow_by(first, last) / grow_to_at_least(n, value) / n x push_back with n up to 300 (several segments, the last one allocated "
+                     "eagerly) whose element copy constructor throws at call #k (k = 1, 2, 3, n and seeded others): no crash, the exception reaches the caller, old elements unchanged, at(i) works or throws for every "
+                     "i < size(), no garbage, the vector is destructible; every case in a forked child")
+    vlib.oracle_tie(ctx, "vec-ctorthrow", exe, ["ctorthrow"], ccases, ct_oracle, describe=ct_desc, bucket=lambda c: "ctorthrow %s" % KN[c[2]], timeout=900)
     # --- oracle runs with real threads (tiling + values + grow_to_at_least coverage)
     nruns = ctx.scale(40, 600)
     bad = 0
